@@ -32,6 +32,9 @@ def call_raises(call):
     if name in t['calls']:
         return list(t['calls'][name])
     if isinstance(f, ast.Attribute):
+        if call.args and f.attr in t.get('methods_with_args', {}):
+            # <tzinfo>.utcoffset(naive) / .localize(naive): pytz interprets a wall-clock time
+            return list(t['methods_with_args'][f.attr])
         if f.attr in t['methods']:
             return list(t['methods'][f.attr])
     if isinstance(f, ast.Name) and f.id in t['calls']:
